@@ -18,9 +18,11 @@ func init() {
 			"C14.3 traversal ownership: every traversal.Start result (directly, or received from a helper that returns it) is Stop()ped on every return path of its owner - by a call, a deferred closure, or a goroutine started on that path that stops it on all of its paths; a helper never returns a running operation together with a non-nil error; " +
 			"C14.4 every context.WithCancel cancel function is called or deferred on every return path of its creator; " +
 			"C14.5 helper goroutines terminate: the goroutine delivering a reply sends on a fresh channel of capacity ≥ 1 (it can never block, whenever the reply arrives); a traversal query's context is cancelled by a watcher on the stopping event and the watcher itself is released by the cancel that follows the query (shared with C07.5, C04.4); " +
-			"C14.6 closed means silent: the one socket write is dominated by closed.IsSet()=false evaluated under the lock in the same call (shared with C19.1).",
+			"C14.6 closed means silent: the one socket write is dominated by closed.IsSet()=false evaluated under the lock in the same call (shared with C19.1); " +
+			"C14.7 every blocking operation (channel wait, WaitGroup.Wait, socket I/O) executes with Server.mu released in every calling context, so a join can never wait for a query that needs the lock to finish; " +
+			"C14.8 each goroutine that reports Done on a WaitGroup is counted by Add in the starting goroutine before the go statement.",
 		NotDecided: "goroutine and datagram counts at run time, latency bounds, behaviour of custom Conn implementations; whether callers of the public API (Announce.Close, StopTraversing) are eventually invoked.",
-		Assume: []string{"traversal.Operation.Stop is idempotent (guarded by stopping.Set())"},
+		Assume:     []string{"traversal.Operation.Stop is idempotent (guarded by stopping.Set())"},
 		Rules: []*Rule{
 			{ID: "C14.1", Doc: "Query joins its sender and deregisters on every path", Floor: 8, Run: c14r1},
 			{ID: "C14.2", Doc: "bounded, counted sends", Floor: 6, Run: c14r2},
@@ -28,6 +30,8 @@ func init() {
 			{ID: "C14.4", Doc: "cancel functions are always called", Floor: 3, Run: c14r4},
 			{ID: "C14.5", Doc: "helper goroutines always terminate: reply delivery cannot block, per-query watcher is released and fires on stop", Floor: 5, Run: func(w *World, rr *RuleRun) { c07r5(w, rr); c04r4(w, rr) }},
 			{ID: "C14.6", Doc: "no write after close", Floor: 4, Run: c19r1},
+			{ID: "C14.7", Doc: "joins cannot deadlock on the server lock: every channel wait, WaitGroup.Wait and socket call runs with Server.mu released (shared with C01.7)", Floor: 10, Run: c01r7},
+			{ID: "C14.8", Doc: "WaitGroup joins count every goroutine before it starts", Floor: 3, Run: c14r8},
 		},
 	})
 }
@@ -510,5 +514,29 @@ func c14r4(w *World, rr *RuleRun) {
 	})
 	if n == 0 {
 		rr.Oblige("(library)", "cancellable contexts exist", "-", false, "none")
+	}
+}
+
+// c14r8: WaitGroup-based joins in library code (announce, put, maintenance pings).
+func c14r8(w *World, rr *RuleRun) {
+	n := 0
+	for _, f := range w.P.LibFuncs {
+		if f.Parent() != nil {
+			continue
+		}
+		waits := false
+		eachInstr(append([]*ssa.Function{f}, allAnon(f)...), func(_ *ssa.Function, ins ssa.Instruction) {
+			if c := callInstrCommon(ins); c != nil {
+				if o := calleeObj(c); o != nil && recvNamed(o) == "WaitGroup" && o.Name() == "Wait" {
+					waits = true
+				}
+			}
+		})
+		if waits {
+			n += w.checkWaitGroupStarts(rr, f)
+		}
+	}
+	if n == 0 {
+		rr.Broken("no WaitGroup join found in library code")
 	}
 }
